@@ -266,7 +266,12 @@ def build_bytes_from_sse(event: ServerSentEvent, charset: str) -> bytes:
     """
     data: Iterable[bytes]
     if "data" in event:
-        data = (f"data: {_}".encode(charset) for _ in event.pop("data").splitlines())
+        # An event stream only knows CR, LF and CRLF as line terminators;
+        # str.splitlines() would also split at U+2028, U+0085, VT, FF...
+        lines = re.split(r"\r\n|\r|\n", event.pop("data"))
+        if lines[-1] == "":
+            lines.pop()
+        data = (f"data: {_}".encode(charset) for _ in lines)
     else:
         data = ()
     return b"\n".join(
